@@ -55,6 +55,7 @@ class Profile:
         self.noformat = 0               # max number of NO-FORMAT objects
         self.nf_payload_max = 64
         self.max_lfs = 1
+        self.interleave = False         # interleave add_* calls of several logical files
         self.sources = ('inline',)
         self.windows = False
         self.chunks = False
@@ -66,6 +67,8 @@ class Profile:
         self.pin_origin = True          # always give file_set_number and creation_time
         self.upper_names = False        # names restricted to [A-Z0-9_-]+
         self.full_attrs = False         # channel dimension/element_limit/axis and all frame attributes too
+        self.origin_sets_differ = False  # origins of one logical file may sit in differently named ORIGIN sets
+        self.lf_distinct_sets = True    # with several logical files, every logical file uses its own set names
         for k, v in kw.items():
             if not hasattr(self, k):
                 raise AttributeError(k)
@@ -157,6 +160,8 @@ class GenCtx:
             return None
         if p.set_names_per_type_differ:
             return draw(st.sampled_from([None, 'S1', 'S2']))
+        if kind == 'origin' and p.origin_sets_differ:
+            return draw(st.sampled_from([None, 'ORIG-A', 'ORIG-B']))
         if kind not in self.set_choice:
             self.set_choice[kind] = draw(st.sampled_from([None, None, 'SET-' + kind.upper()[:6]]))
         return self.set_choice[kind]
@@ -733,7 +738,22 @@ def file_specs(draw, profile):
         lf = draw_logical_file(draw, profile, i, rows_fixed)
         if profile.shuffle:
             lf = shuffle_ops(draw, lf)
+        if nlf > 1 and profile.lf_distinct_sets:
+            # logical files sharing a set name share the set object (C18 finding): keep them apart by construction
+            for op in lf['ops']:
+                if op['t'] != 'nfdata' and (i > 0 or op.get('set') is not None):
+                    op['set'] = f"{op.get('set') or op['t'].upper()}-LF{i}"
         spec['lfs'].append(lf)
+    if nlf > 1 and profile.interleave:
+        order = []
+        pos = [0] * nlf
+        total = sum(len(lf['ops']) for lf in spec['lfs'])
+        while len(order) < total:
+            live = [i for i in range(nlf) if pos[i] < len(spec['lfs'][i]['ops'])]
+            i = draw(st.sampled_from(live))
+            order.append([i, pos[i]])
+            pos[i] += 1
+        spec['order'] = order
     rows = min(min_rows(lf) for lf in spec['lfs'])
     if profile.chunks:
         m = draw(st.integers(0, 4))
